@@ -396,7 +396,9 @@ struct WkdRun {
         if (shallow) { k = KeyM(); k.sk.alloc(R.sz(JV_SZ_WK_SK)); memcpy(k.sk.p, pk->sk.p, k.sk.n); k.cap = pk->cap; k.cap_alloc = pk->cap_alloc; env.count("fault:destination_key_is_a_struct_copy_sharing_the_source_slot_array"); }
         std::vector<std::string> sf = trailing_faults(op, 0);
         call_begin((uint64_t) op.arg(0), &sf); R.jv_wk_resamplekey(view, k.sk, sys.params, pre, pk->sk, further, jv_rand_cb);
-        if (shallow) { pk->tainted = true; k.barr = std::move(pk->barr); hopcache.clear(); }   // (the spent key's bytes changed under it: cached marshalled forms are stale)   // the array now belongs to the new key (the spent object still points at it; the harness keeps it alive through the new owner)
+        if (shallow) { pk->tainted = true; k.barr = std::move(pk->barr); hopcache.clear();
+            // the spent object gets an array of its own again (a copy of what the shared one holds now): from here on the two objects have separate lifetimes in the harness
+            Buf cp(k.barr.n); memcpy(cp.p, k.barr.p, k.barr.n); pk->barr = std::move(cp); R.jv_wk_sk_set_barray(pk->sk, pk->barr.p); }   // (the spent key's bytes changed under it: cached marshalled forms are stale)   // the array now belongs to the new key (the spent object still points at it; the harness keeps it alive through the new owner)
         k.rho = Bn::addmod(pk->rho, drawn_scalar("resamplekey"), K().r);
         k.pat = pk->pat; if (!further) for (auto& s : k.pat) if (s.st == ST_FREE) s.st = ST_HIDDEN;
         std::vector<Slot> ppat = pk->pat;
@@ -729,6 +731,10 @@ struct WkdScenario : Scenario {
             std::vector<std::string> none((size_t) n, "-"), one = none; if (n) one[0] = "f:2";
             p.ops.push_back({"KEYGEN", {(int64_t) (r.next() >> 1), 0, 0}, none}); p.ops.push_back({"KEYGEN", {(int64_t) (r.next() >> 1), 0, 0}, one});
             for (int comp = 0; comp < 2; comp++) { p.ops.push_back({"HOP", {2, 0, comp, 1}, {}}); p.ops.push_back({"HOP", {2, 1, comp, (n & 1)}, {}}); p.ops.push_back({"HOP", {0, 0, comp, 1}, {}}); }
+            // ... and with one h element replaced by itself plus the point of order 3, at positions i with i = l, l-1, l-2 (mod 3): whatever a validation does per
+            // batch, per weighted combination or per position, a single off-subgroup element must be rejected
+            if (n >= 3 && kn("hopsizes", 0) == 1) for (int comp = 0; comp < 2; comp++) for (int k3 = 0; k3 < 3; k3++) { int i0 = (n - k3) % 3; if (i0 >= n) continue; int steps = (n - 1 - i0) / 3; int i = i0 + 3 * (int) r.below((uint64_t) steps + 1);
+                p.ops.push_back({"HOP", {0, 0, comp, 1}, {strf("elem:%d:wrongsub:%d", (int) (p.cfg["sig"] ? 5 : 4) + i, 2 + 4 * (int) r.below(8))}}); }
             p.ops.push_back({"ENC", {(int64_t) (r.next() >> 1), 1, 0, 1}, {}}); p.ops.push_back({"DEC", {0, 1}, {}}); p.ops.push_back({"DEC", {0, 0}, {}});
             return p;
         }
